@@ -496,3 +496,45 @@ def rule_cis_trans_keys(ck, repo, R):
     ck.decide(len(set(shapes.values())) == 1, R, 'tables:same-chains', list(shapes.values())[0],
               f'the cis/trans tables no longer iterate the same chains with the same filter and terminals: {shapes}', file='chython/algorithms/stereo.py')
     ck.floor(R, 5)
+
+
+def rule_unpach_dispatch(ck, repo, R):
+    ck.rule(R, 'the generic unpach() hands every header MoleculeContainer.unpack accepts (version 0 and version 2) to the molecule decoder: either by trying '
+               'the molecule decoder first and falling back on ValueError, or by a header test naming exactly those versions')
+    m = repo.module('chython.containers')
+    f = m.functions.get('unpach') if m else None
+    ck.require(f is not None, 'chython.containers.unpach not found')
+    mu = repo.func(f'{MOL}:MoleculeContainer.unpack')
+    accepted = None
+    for n in ast.walk(mu.node):
+        if isinstance(n, ast.Compare) and src(n.left) == 'data[0]' and isinstance(n.ops[0], ast.In):
+            try:
+                accepted = set(ast.literal_eval(n.comparators[0]))
+            except Exception:
+                pass
+    ck.require(accepted, 'MoleculeContainer.unpack: accepted header versions not found')
+    tries = [n for n in ast.walk(f.node) if isinstance(n, ast.Try)]
+    if tries:
+        t = tries[0]
+        first = any(isinstance(c, ast.Call) and src(c.func) == 'MoleculeContainer.unpack' for s in t.body for c in ast.walk(s))
+        catches = any(h.type is None or src(h.type) in ('ValueError', 'Exception') or 'ValueError' in src(h.type) for h in t.handlers)
+        ck.decide(first and catches, R, 'molecule-first-then-fallback', sorted(accepted), 'unpach no longer tries the molecule decoder first with a ValueError fallback', file=f.file, line=t.lineno)
+    else:
+        routed = None
+        for n in ast.walk(f.node):
+            if isinstance(n, ast.If) and any(isinstance(c, ast.Call) and src(c.func) == 'MoleculeContainer.unpack' for s in n.body for c in ast.walk(s)):
+                t = n.test
+                if isinstance(t, ast.Compare) and src(t.left) == 'data[0]':
+                    if isinstance(t.ops[0], ast.Eq) and isinstance(t.comparators[0], ast.Constant):
+                        routed = {t.comparators[0].value}
+                    elif isinstance(t.ops[0], ast.In):
+                        try:
+                            routed = set(ast.literal_eval(t.comparators[0]))
+                        except Exception:
+                            pass
+        if routed is None:
+            raise AnalysisError('unpach: dispatch form not recognised')
+        ck.decide(accepted <= routed, R, 'header-dispatch', sorted(routed),
+                  f'unpach routes headers {sorted(routed)} to the molecule decoder, which accepts {sorted(accepted)}: packs with header {sorted(accepted - routed)} '
+                  f'(published earlier) are sent to the reaction decoder and rejected', file=f.file, line=f.lineno, func='unpach')
+    ck.floor(R, 1)
